@@ -4,6 +4,30 @@ use explore::Cx;
 use h_objects::harness::*;
 use rayon::prelude::*;
 
+fn run_cell(f: fn() -> Result<u64, (String, String)>) -> explore::CaseOut {
+    use h_objects::support::alloc;
+    alloc::begin();
+    let r = std::panic::catch_unwind(f);
+    let rep = alloc::end();
+    match r {
+        Err(_) => explore::CaseOut::bad("panic", "panicked"),
+        Ok(Err((sig, d))) => explore::CaseOut::bad(sig, d),
+        Ok(Ok(obs)) => {
+            if rep.clean() {
+                explore::CaseOut::ok(obs)
+            } else {
+                explore::CaseOut::bad(format!("alloc:{}", rep.signature()), rep.describe())
+            }
+        }
+    }
+}
+
+/// a matrix cell is its own case: fold its name into the observation digest
+fn named(mut o: explore::CaseOut, name: &str) -> explore::CaseOut {
+    o.obs ^= explore::digest(&name);
+    o
+}
+
 fn main() {
     std::panic::set_hook(Box::new(|_| {}));
     let args: Vec<String> = std::env::args().collect();
@@ -76,6 +100,46 @@ fn main() {
                         Err((sig, d)) => explore::CaseOut::bad(sig, d),
                         Ok(o) => explore::CaseOut::ok(o),
                     },
+                }
+            }),
+        });
+    }
+    if prop == "C04" {
+        sections.push(Section {
+            name: "group_layout",
+            explore: Box::new(|cx: &Cx| {
+                cx.rule("group_layout", "matrix: generated group family (1-4 optional traits, no mandatory trait, aliased generic instantiations, traits with &mut methods, mandatory+optional traits declared out of name order) x every set of traits enabled by the implementing type x container {Box, Mut, Ref} x context {none, CArc}; the group object is read as raw machine words the way a C caller reads it: vtable pointers in name order (mandatory first, then optional, null when not enabled) — each non-null pointer is *called through* (vtbl->slot0(&container)) and must reach the trait it is supposed to be —, then instance, then context, no bytes of temporary storage; cast/upcast keep the bit pattern; the final (into!) form is mandatory + requested pointers + the same container");
+                for c in h_objects::all_layouts() {
+                    let case = serde_json::json!({"cell": c.name, "group": c.group, "enabled": c.enabled, "container": c.container, "context": c.context});
+                    cx.eval("group_layout", &case, || named(run_cell(c.run), c.name));
+                }
+            }),
+            replay: Box::new(|c| {
+                let n = c["cell"].as_str().unwrap();
+                match h_objects::all_layouts().into_iter().find(|x| x.name == n) {
+                    None => explore::CaseOut::bad("replay:no_such_cell", "not in this tier"),
+                    Some(cell) => run_cell(cell.run),
+                }
+            }),
+        });
+    }
+    if prop == "C08" {
+        sections.push(Section {
+            name: "cast_matrix",
+            explore: Box::new(|cx: &Cx| {
+                cx.rule("cast_matrix", "matrix: generated group family (n = 1..N optional traits with a mandatory trait, a family without mandatory trait, aliased generic instantiations Tt<usize>/Tt<u64>, traits with &mut methods, out-of-order declarations) x all 2^n implementing types (one cglue_impl_group! each; the type implements every trait but enables only the subset) x all 2^n-1 requested subsets x {check, as_ref, as_mut, cast, into} x {Box, Mut, Ref}; oracle: success <=> requested subset of enabled; after success every mandatory and requested method returns the value of this instance and trait (instance id + per-trait constant), mutations reach the instance, cast+upcast gives a group for which check! holds for exactly the enabled set, boxed payload dropped exactly once / borrowed payload never dropped");
+                let cells = h_objects::all_cells();
+                cx.note("cast_matrix", "cells", serde_json::json!(cells.len()));
+                cells.par_iter().for_each(|c| {
+                    let case = serde_json::json!({"cell": c.name, "group": c.group, "enabled": c.enabled, "requested": c.requested, "container": c.container, "op": c.op, "expect_success": c.expect});
+                    cx.eval("cast_matrix", &case, || named(run_cell(c.run), c.name));
+                });
+            }),
+            replay: Box::new(|c| {
+                let n = c["cell"].as_str().unwrap();
+                match h_objects::all_cells().into_iter().find(|x| x.name == n) {
+                    None => explore::CaseOut::bad("replay:no_such_cell", "not in this tier"),
+                    Some(cell) => run_cell(cell.run),
                 }
             }),
         });
